@@ -681,8 +681,10 @@ def deficient_scenario(rng):
     used, switched = [], []
 
     def opt():
-        k = free.pop()
-        used.append(k)
+        # (ten fresh names per scenario; a graph that asks for more re-reads one it already uses)
+        k = free.pop() if free else rng.choice(used)
+        if k not in used:
+            used.append(k)
         return ("option", K(k), None, None)
 
     def part():
